@@ -448,7 +448,7 @@ func runCase(c *Case, t *truth) (vs []viol, oc outcome) {
 				return
 			}
 		}
-		ev.HarnessError("CloneStream consumers did not finish within 120 s: %+v", *c)
+		ev.HarnessError("CloneStream consumers did not finish within 120 s: %s", describe(c))
 	}
 
 	for i, r := range results {
@@ -543,8 +543,9 @@ func runCase(c *Case, t *truth) (vs []viol, oc outcome) {
 				add(sig+":"+what, "%s returned %v (code %s); admissible: %s; content %q, digest size %d, source ends with %s", r.path, r.err, code, strings.Join(admissible, " | "), t.data, t.size, c.Final)
 			}
 		}
-		if !t.valid {
-			// Final portion withheld.
+		if !t.valid && !r.success && !r.lateEOF {
+			// Final portion withheld (a success on mismatching content has
+			// already been reported above).
 			boundOff := r.off
 			if boundOff < 0 {
 				boundOff = 0
